@@ -65,10 +65,10 @@ def units(tier, seed):
     return us
 
 
-def check_sentence(t, out, pairs, viol):
+def check_sentence(t, out, pairs, viol, prebuilt=None):
     from pytableaux.lang import Operated, Operator, Quantified
     try:
-        s = syn.to_lib(t)
+        s = prebuilt if prebuilt is not None else syn.to_lib(t)
     except Exception as e:
         viol('construction-raises', t, None, f'{type(e).__name__}: {e}', error=type(e).__name__)
         return
@@ -188,6 +188,16 @@ def run_unit(unit, out, tier, seed):
     if kind == 'exh01':
         for t in L0 + L1:
             check_sentence(t, out, PAIRS, viol)
+        # binary sentences whose two operands are ONE object (s & s): every compound operand of level 1, all operators
+        from pytableaux.lang import Operated, Operator
+        for x_ in L1:
+            xl = syn.to_lib(x_)
+            for o_ in BIN + ('Disjunction', 'Biconditional'):
+                t = syn.op(o_, x_, x_)
+                dup = Operated(Operator[o_], (xl, xl))
+                check_sentence(t, out, PAIRS[:6], viol, prebuilt=dup)
+                check_sentence(syn.neg(t), out, PAIRS[:3], viol, prebuilt=~dup)
+                out.count('same_object_operand_sentences', 2)
         out.sample(dict(sentence=syn.show(L1[5]), pairs=[(syn.show(n), syn.show(o)) for n, o in PAIRS[:4]]), limit=1)
         out.count('exhaustive_level_0_1_sentences', len(L0) + len(L1))
     elif kind == 'exh2':
